@@ -5,13 +5,15 @@ from . import gen_text as G
 from . import pipeline as PL
 
 BASE = "/verif/work/inc"
-NAMES = ["a.inc", "b.inc", "c.inc", "d.inc"]
+# `e_stdgates.inc` ends with, and `stdgates.inc.f` starts with, the name of the virtual standard library: both are
+# ordinary files; a real file called `stdgates.inc` in a search directory must never be read
+NAMES = ["a.inc", "b.inc", "c.inc", "d.inc", "e_stdgates.inc", "stdgates.inc.f"]
 DIRS = ["d1", "d2", "d3"]
 
 
 def file_body(rnd, name, depth, allow_bad=True):
     """content of an include file: declares variables named after the file and its directory copy"""
-    v = name[0]
+    v = name[0] if name[0] != "s" else "t"
     tag = rnd.randint(1, 9)
     lines = [f"int {v}{tag} = {tag};"]
     r = rnd.random()
@@ -34,7 +36,10 @@ def gen_case(rnd, idx):
     cid = f"c{idx}"
     root = f"{BASE}/{cid}"
     files = {}
-    for n in NAMES[: rnd.randint(1, 4)]:
+    pool = NAMES[: rnd.randint(1, 4)] + [n for n in NAMES[4:] if rnd.random() < 0.25]
+    if rnd.random() < 0.1:
+        files[f"{rnd.choice(DIRS)}/stdgates.inc"] = "int sg_real_file = 1;\n"
+    for n in pool:
         for d in DIRS[: rnd.randint(1, 3)]:
             if rnd.random() < 0.45:
                 if rnd.random() < 0.05:
